@@ -311,6 +311,29 @@ static int copier(const char *tool, int argc, char **argv) {
     return 0;
 }
 
+/* lnstub [-s] [-f] SRC DST : really links, logged */
+static int linker_(const char *tool, int argc, char **argv) {
+    const char *src = 0, *dst = 0; int sym = 0;
+    for (int i = 1; i < argc; i++) {
+        if (argv[i][0] == '-' && argv[i][1]) { if (strchr(argv[i], 's')) sym = 1; continue; }
+        src = dst; dst = argv[i];
+    }
+    if (!src || !dst) return 1;
+    unlink(dst);
+    int rc = sym ? symlink(src, dst) : link(src, dst);
+    if (rc != 0) { fprintf(stderr, "stub ln: %s -> %s: %s\n", dst, src, strerror(errno)); log_record(tool, argc, argv); return 1; }
+    /* the referent, as seen from the link's directory */
+    static char ref[PATH_MAX];
+    if (sym && src[0] != '/') {
+        char d[PATH_MAX]; snprintf(d, sizeof d, "%s", dst);
+        snprintf(ref, sizeof ref, "%s/%s", dirname(d), src);
+    } else snprintf(ref, sizeof ref, "%s", src);
+    inputs[nin++] = ref;
+    outputs[nout++] = dst;
+    log_record(tool, argc, argv);
+    return 0;
+}
+
 static int driver(const char *tool, int argc, char **argv) {
     log_record(tool, argc, argv);
     int rc = 0;
@@ -335,6 +358,7 @@ int main(int argc, char **argv) {
     if (!strncmp(tool, "drv", 3)) return driver(tool, argc, argv);
     if (!strcmp(tool, "gen")) return generator(tool, argc, argv);
     if (!strcmp(tool, "cpstub")) return copier(tool, argc, argv);
+    if (!strcmp(tool, "lnstub")) return linker_(tool, argc, argv);
     if (argc >= 2 && !strcmp(argv[1], "--version") && (!strcmp(tool, "patchelf") )) { printf("patchelf 0.14\n"); }
     log_record(tool, argc, argv);
     const char *rc = getenv("VERIF_STUB_EXIT");
